@@ -325,6 +325,16 @@ pub proof fn lemma_u128_one_shl(t: u32)
 }
 
 
+/// u64::leading_zeros in arithmetic form (T-std, same statement as the u32 one below)
+#[verifier::external_body]
+pub proof fn axiom_u64_lz_arith(n: u64)
+    ensures
+        n == 0 ==> u64_leading_zeros(n) == 64,
+        n != 0 ==> u64_leading_zeros(n) < 64
+            && pow2((63 - u64_leading_zeros(n)) as nat) <= n as nat
+            && (n as nat) < pow2((64 - u64_leading_zeros(n)) as nat),
+{}
+
 /// u32::leading_zeros in arithmetic form (T-std; vstd's own axiom is bit-indexed): 2^(31-lz) <= n < 2^(32-lz)
 #[verifier::external_body]
 pub proof fn axiom_u32_lz_arith(n: u32)
